@@ -12,12 +12,13 @@ open CaddyModel.C01
 #print axioms default_storage_after_rejected
 #print axioms default_storage_after_validate
 #print axioms accepted_sets_default_logger
-#print axioms default_logger_partial
-#print axioms entered_run_moves_default_logger
+#print axioms default_logger_untouched_before_run
+#print axioms default_logger_after_rejected
+#print axioms default_logger_after_validate
 #print axioms history_atomic
 #print axioms step_atomic
 #print axioms stop_leaves_nothing
 #print axioms load_atomic_old_code_fails
 #print axioms default_storage_old_code_fails
-#print axioms default_logger_full_fails
+#print axioms default_logger_old_code_fails
 #print axioms provision_rollback_sees_every_error
